@@ -131,7 +131,29 @@ fn scenario(ctx: &Ctx, idx: u64) -> Report {
                     4 => id,
                     _ => gen::rand_id(&mut rng),
                 };
-                Krpc::query(gen::tid(&mut rng), claimed, q).encode()
+                // A stranger that plays by the rules: asks get_peers first and announces with the token
+                // it was given (valid for its address). The announce is accepted - and still must not
+                // make the stranger a contact.
+                if serving && matches!(q, Query::AnnouncePeer { .. }) && rng.gen_bool(0.6) {
+                    let ih = gen::id(&mut rng);
+                    let mark = net.log_len();
+                    net.send_from_after(sender, addr, Krpc::query(gen::tid(&mut rng), claimed, Query::GetPeers { info_hash: ih, want: None }).encode(), MS);
+                    sleep_us(3 * MS).await;
+                    let token = net
+                        .log_since(mark)
+                        .iter()
+                        .filter(|w| w.ev == Ev::Send && w.src == addr && w.dst == sender)
+                        .filter_map(|w| Krpc::parse(&w.data).ok())
+                        .find_map(|k| k.as_reply().and_then(|r| r.token.clone()));
+                    if let Some(token) = token {
+                        report.count("strangers_announcing_with_a_valid_token");
+                        Krpc::query(gen::tid(&mut rng), claimed, Query::AnnouncePeer { info_hash: ih, port: if rng.gen_bool(0.5) { None } else { Some(gen::port(&mut rng)) }, token }).encode()
+                    } else {
+                        Krpc::query(gen::tid(&mut rng), claimed, q).encode()
+                    }
+                } else {
+                    Krpc::query(gen::tid(&mut rng), claimed, q).encode()
+                }
             } else {
                 // a response whose transaction id cannot derive from any request of this node
                 poison_senders.insert(sender);
@@ -299,7 +321,7 @@ pub fn check(tier: Tier) -> Check {
                scripted nodes whose answers additionally name ghosts, the node's own id at a foreign address, the \
                router addresses and duplicates) receives 120 (quick) / 300 (thorough) unsolicited datagrams \
                spread over its life (while bootstrapping, idle, while searching), each from a fresh address: \
-               queries of all four kinds (claiming a fresh id, the id of a node known only by hearsay, of a responsive contact, or the node's own id), and responses whose transaction id has a length other than 8 (random, \
+               queries of all four kinds (announce_peer also with a valid token obtained by a preceding get_peers; claiming a fresh id, the id of a node known only by hearsay, of a responsive contact, or the node's own id), and responses whose transaction id has a length other than 8 (random, \
                or one of the node's own live ids lengthened / shortened) or an activity prefix >= 2^32, naming 0..50 fresh nodes and carrying fresh peer values. Every 4th \
                step load_contacts() and the hook registry dump are read: no unsolicited sender, no name from \
                an impossible response, no router address, not the own id; every address reported good must have \
@@ -314,6 +336,7 @@ pub fn check(tier: Tier) -> Check {
         require: vec![
             ("unsolicited_queries", tier.pick(8_000, 400_000)),
             ("unsolicited_queries_claiming_a_hearsay_id", tier.pick(1_000, 50_000)),
+            ("strangers_announcing_with_a_valid_token", tier.pick(300, 15_000)),
             ("responses_with_wrong_tid_length", tier.pick(3_000, 150_000)),
             ("responses_with_never_used_prefix", tier.pick(3_000, 150_000)),
             ("responses_with_live_id_of_wrong_length", tier.pick(2_000, 100_000)),
